@@ -17,6 +17,12 @@ impl Invert {
 
 impl Pattern for Invert {
     fn matches(&self, tokens: &[Token], source: &[char]) -> usize {
+        // There is no token to match: claiming a length of 1 would make callers slice past the
+        // end of the chunk.
+        if tokens.is_empty() {
+            return 0;
+        }
+
         if self.inner.matches(tokens, source) != 0 {
             0
         } else {
